@@ -46,6 +46,11 @@ type seekTarget interface {
 	Close()
 }
 
+// noSeek is a RowReader whose SeekToRow always fails (a wrapper that offers no seeking at all).
+type noSeek struct{ parquet.RowReader }
+
+func (noSeek) SeekToRow(int64) error { return errors.New("not a seeker") }
+
 type rowsTarget struct {
 	name string
 	n    int64
@@ -181,7 +186,8 @@ func runC08(c *Ctx) {
 	rgs := f.RowGroups()
 
 	// choose the target and build its ground truth from a fresh sequential pass
-	kind := c.Case % 13
+	kind := c.Case % 14
+	forwardOnly := false
 	var mk func() seekTarget
 	col := r.Intn(ncols)
 	rowsOf := func(rg parquet.RowGroup, name string) func() seekTarget {
@@ -254,6 +260,33 @@ func runC08(c *Ctx) {
 		view := parquet.VerifNewRowRangeRowGroup(pick, off, length)
 		c.D("range", fmt.Sprintf("%d+%d", off, length))
 		mk = rowsOf(view, "RowRangeRows")
+	case 13:
+		// a converted reader over a source that cannot seek: ConvertRowReader offers forward seeks by skipping rows
+		to := parquet.NewSchema("target", parquet.Group{"verif_added": parquet.Optional(parquet.Int(64))})
+		merged := parquet.Group{}
+		for _, fld := range schema.Fields() {
+			merged[fld.Name()] = fld
+		}
+		merged["verif_added"] = parquet.Optional(parquet.Int(64))
+		to = parquet.NewSchema("target", merged)
+		conv, err := parquet.Convert(to, schema)
+		if err != nil {
+			c.Fail("harness.convert", nil, "%v", err)
+			return
+		}
+		forwardOnly = true
+		mk = func() seekTarget {
+			rr := pick.Rows()
+			cr := parquet.ConvertRowReader(struct{ parquet.RowReader }{rr}, conv)
+			sk, ok := cr.(interface {
+				parquet.RowReader
+				SeekToRow(int64) error
+			})
+			if !ok {
+				return &rowsTarget{name: "ConvertedForwardOnlyRows", n: pick.NumRows(), rr: noSeek{cr}, closer: func() { rr.Close() }}
+			}
+			return &rowsTarget{name: "ConvertedForwardOnlyRows", n: pick.NumRows(), rr: sk, closer: func() { rr.Close() }}
+		}
 	case 11:
 		// the explicit asynchronous wrappers over a synchronously opened file
 		arg := parquet.AsyncRowGroup(pick)
@@ -383,6 +416,9 @@ func runC08(c *Ctx) {
 				}
 				if k > N {
 					k = N
+				}
+				if forwardOnly && k < pos {
+					k = pos + int64(r.Intn(int(N-pos)+1))
 				}
 				if k < pos {
 					c.Obs("seek_backward", 1)
